@@ -4,6 +4,7 @@ import (
 	"fmt"
 	"go/token"
 	"go/types"
+	"sort"
 
 	"golang.org/x/tools/go/ssa"
 )
@@ -247,6 +248,98 @@ func ruleWordReset(p *Prog, r *Result) {
 		r.undecided("the scanner's arms do not merge in phis carrying the state variables")
 		return
 	}
+	// which ways round the loop can be taken in string mode / outside it: the branch conditions on the in-string flag
+	// and on the current character are decided along the way (an early `if strStart && char != quote { ...; continue }`
+	// leaves the arms of ordinary characters reachable only outside string mode)
+	var charV ssa.Value
+	allInstrs(fn, func(in ssa.Instruction) {
+		var ix ssa.Value
+		switch lk := in.(type) {
+		case *ssa.Lookup:
+			ix = lk.Index
+		case *ssa.Index:
+			ix = lk.Index
+		default:
+			return
+		}
+		if ix == ssa.Value(hI) && charV == nil {
+			charV = in.(ssa.Value)
+		}
+	})
+	type edgeKey struct{ from, to *ssa.BasicBlock }
+	reachUnder := func(inStr bool) map[edgeKey]bool {
+		out := map[edgeKey]bool{}
+		type st struct {
+			b   *ssa.BasicBlock
+			key string
+		}
+		seen := map[st]bool{}
+		var walk func(b *ssa.BasicBlock, known int64, hasKnown bool, excl []int64)
+		walk = func(b *ssa.BasicBlock, known int64, hasKnown bool, excl []int64) {
+			k := st{b, fmt.Sprint(known, hasKnown, excl)}
+			if seen[k] {
+				return
+			}
+			seen[k] = true
+			take := func(si int, kn int64, hk bool, ex []int64) {
+				sc := b.Succs[si]
+				out[edgeKey{b, sc}] = true
+				if sc == H || !L.Body[sc] {
+					return
+				}
+				walk(sc, kn, hk, ex)
+			}
+			f := ifOf(b)
+			if f == nil {
+				for si := range b.Succs {
+					take(si, known, hasKnown, excl)
+				}
+				return
+			}
+			a, ok := condAtom(f.Cond, true)
+			if ok && a.X == ssa.Value(hStr) {
+				if bv, isB := constBool(a.Y); isB {
+					truth := ((a.Op == token.EQL) == bv) == inStr
+					if truth {
+						take(0, known, hasKnown, excl)
+					} else {
+						take(1, known, hasKnown, excl)
+					}
+					return
+				}
+			}
+			if ok && charV != nil && a.X == charV && (a.Op == token.EQL || a.Op == token.NEQ) {
+				if c, isC := constInt(a.Y); isC {
+					eqIdx, neIdx := 0, 1
+					if a.Op == token.NEQ {
+						eqIdx, neIdx = 1, 0
+					}
+					excluded := false
+					for _, e := range excl {
+						if e == c {
+							excluded = true
+						}
+					}
+					if (!hasKnown || known == c) && !excluded {
+						take(eqIdx, c, true, nil)
+					}
+					if !hasKnown {
+						ne := append(append([]int64{}, excl...), c)
+						sort.Slice(ne, func(i, j int) bool { return ne[i] < ne[j] })
+						take(neIdx, 0, false, ne)
+					} else if known != c {
+						take(neIdx, known, true, nil)
+					}
+					return
+				}
+			}
+			take(0, known, hasKnown, excl)
+			take(1, known, hasKnown, excl)
+		}
+		walk(H, 0, false, nil)
+		return out
+	}
+	inStrEdges, outStrEdges := reachUnder(true), reachUnder(false)
 	nEdges := 0
 	for j, lf := range leaves {
 		nEdges++
@@ -283,6 +376,15 @@ func ruleWordReset(p *Prog, r *Result) {
 						before = -1
 					}
 				}
+			}
+		}
+		if before == 0 {
+			ek := edgeKey{pred, lf.to}
+			switch {
+			case inStrEdges[ek] && !outStrEdges[ek]:
+				before = 1
+			case outStrEdges[ek] && !inStrEdges[ek]:
+				before = -1
 			}
 		}
 		after := before
